@@ -1,9 +1,7 @@
 (* C10 -- HTMLEscaped yields inert, interchange-valid, round-tripping text for every input.
-   Only the property theorems; proofs are in proofs/HtmlFacts.v.  The tokenizer clause
-   ("placed in element content, RCDATA or a quoted attribute value it never ends the enclosing
-   construct") is stated over the HTML tokenizer specification in props/C10_tok.v when present;
-   its byte-level content is C10_alphabet. *)
-From V Require Import lib.Base lib.Utf8 model.Html model.HtmlUnescape spec.HtmlSpec proofs.HtmlFacts.
+   Only the property theorems; proofs are in proofs/HtmlFacts.v and proofs/HtmlTokInertFacts.v. *)
+From V Require Import lib.Base lib.Utf8 model.Html model.HtmlUnescape spec.HtmlSpec spec.HtmlTok proofs.HtmlFacts
+     proofs.HtmlTokFacts proofs.HtmlTokInertFacts.
 
 (* none of the four bytes 60 62 34 39; every ampersand starts one of the five references *)
 Theorem C10_alphabet : forall s,
@@ -26,3 +24,22 @@ Print Assumptions C10_roundtrip.
 Theorem C10_concat : forall l, html_concat l = concat l.
 Proof. exact html_concat_spec. Qed.
 Print Assumptions C10_concat.
+
+(* placed in element content, RCDATA content or a single- or double-quoted attribute value, the
+   escaped text is consumed by the WHATWG tokenizer specification (spec/HtmlTok.v) without leaving
+   the state it was in and without emitting any token: it never ends the enclosing construct *)
+Theorem C10_tokenizes_inert : forall s,
+  (forall t, t_state t = SData ->
+     let t' := tok_run t (html_escaped s) in
+     t_state t' = SData /\ t_toks t' = t_toks t /\
+     t_classes t' = rev (map (fun _ => PText) (html_escaped s)) ++ t_classes t) /\
+  (forall n t, t_state t = SRcdata n ->
+     let t' := tok_run t (html_escaped s) in
+     t_state t' = SRcdata n /\ t_toks t' = t_toks t /\
+     t_classes t' = rev (map (fun _ => PRcdata n) (html_escaped s)) ++ t_classes t) /\
+  (forall t, t_state t = SAttrValueDQ ->
+     let t' := tok_run t (html_escaped s) in t_state t' = SAttrValueDQ /\ t_toks t' = t_toks t) /\
+  (forall t, t_state t = SAttrValueSQ ->
+     let t' := tok_run t (html_escaped s) in t_state t' = SAttrValueSQ /\ t_toks t' = t_toks t).
+Proof. exact html_escaped_tokenizes_inert. Qed.
+Print Assumptions C10_tokenizes_inert.
